@@ -95,7 +95,7 @@ def entry_outcomes(it, scratch):
     import jinja2
 
     res = {}
-    env, gm, data = it.make()
+    env, gm, data = corpus.safe_make(it)
     res["render"] = corpus.outcome(lambda: gm().render(**data))
 
     def fresh():
@@ -143,7 +143,7 @@ def entry_outcomes(it, scratch):
 
     def afresh():
         if not abox:
-            abox.append(it.make(env_kwargs={"enable_async": True}))
+            abox.append(corpus.safe_make(it, env_kwargs={"enable_async": True}))
         e, g, d = abox[0]
         return g(), d
 
